@@ -413,6 +413,9 @@ func verifBodyHistory(s *verifEngC, gc *check.C) {
 		case 10:
 			op = 4
 		}
+		if c.Active("C13") && c.Draw("c13-more-reverts", 2) == 1 {
+			op = 3 + c.Draw("c13-revert-kind", 2) // sequences of reverts in both directions are where the blocked set gets subtle
+		}
 		if isKernel && (op == 6 || op == 8 || op == 2) {
 			// the model's kernel is neither disabled nor removed; a refresh to a
 			// kept revision reads the snap's type from the fixture's fake ReadInfo,
